@@ -1,5 +1,5 @@
 from ..runner import Prop
-from .. import bedgen
+from .. import bedgen, core
 from ..core import parse_sx, sx
 
 class C02(Prop):
@@ -15,13 +15,88 @@ class C02(Prop):
             "non-trivial = accepted input with at least 2 entries; distinct = distinct case text")
     CORRESPONDENCE = ("accept/refuse class, chromosome table, full-span entries (plain reader and caching-reader history), autosql(), "
                       "item_count(), header field counts, zoom directory of BigBedWrite/BigBedRead = Model/BigBedWrite.v + Model/BBIReadBed.v; "
-                      "every byte of the file equal for uncompressed files (summary and zoom levels from Model/BedSweep.v)")
+                      "every byte of the file equal for uncompressed files (summary and zoom levels from Model/BedSweep.v); "
+                      "COMPRESSED files (replay compressor): every block of the real file inflated by the extracted Spec/Inflate.zlib_decode, "
+                      "the table {inflated block -> real compressed block} as the compressor of Model/BigBedWriteZ.v, model file = real file byte for byte "
+                      "(offsets, sizes, index, zoom selection on compressed sizes, uncompress_buf_size, inflated content of every block)")
     TRUSTED = ["verif_hooks accessors for private header fields"]
-    ASSUMPTIONS = ["rest fields and autoSql are valid UTF-8 (String in the API)", "libdeflater round-trips (compressed files are compared at reader level only)",
+    ASSUMPTIONS = ["rest fields and autoSql are valid UTF-8 (String in the API)",
+                   "libdeflater's compressed bytes are not predicted: they are taken from the real file, block by block, and must inflate (Spec/Inflate.v) to the model's raw sections",
                    "total summary and zoom levels come from Model/BedSweep.v (C06/C08); depth counter below 2^24 (f32 exact)"]
     PER_CASE_TIMEOUT = 30.0
 
+    # ---- replay compressor (compressed cases carry flag bit 2: the harness appends the real file's bytes) ----
+    # driver entry 2 on (case, implementation output): (1 blocks ubuf answers) when the file of Model/BigBedWriteZ.v with the
+    # replay compressor IS the real file; answers = the reader MODEL on those bytes with Spec/Inflate as decompressor.
+    def __init__(self):
+        self.replay = {}          # case text -> answer of driver entry 2
+        self.replay_only = set()  # compress + automatic zoom selection: the model line (uncompressed model file) does not apply
+        self.replay_stats = {"files": 0, "byte_equal": 0, "blocks_inflated": 0, "different": 0, "automatic_zoom_selection_compressed": 0}
+
+    @staticmethod
+    def _replay_case(case):
+        try:
+            return int(case.rstrip().rstrip(")").split()[-1]) & 4 != 0
+        except ValueError:
+            return False
+
+    def impl_outputs(self, lines):
+        outs = Prop.impl_outputs(self, lines)
+        idx = [k for k, (l, o) in enumerate(zip(lines, outs)) if self._replay_case(l) and o.startswith("(0 ") and l not in self.replay]
+        if idx:
+            pairs = ["(%s %s)" % (lines[k], outs[k]) for k in idx]
+            res = core.run_model(self.ID, 2, pairs, per_case_timeout=self.MODEL_TIMEOUT)
+            for k, r in zip(idx, res):
+                r = r.strip()
+                self.replay[lines[k]] = r
+                self.replay_stats["files"] += 1
+                if r.startswith("(1 "):
+                    self.replay_stats["byte_equal"] += 1
+                    self.replay_stats["blocks_inflated"] += int(r[3:].split()[0])
+                    if lines[k] in self.replay_only:
+                        self.replay_stats["automatic_zoom_selection_compressed"] += 1
+                else:
+                    self.replay_stats["different"] += 1
+        return outs
+
+    def same(self, case, impl_out, model_out):
+        if self._replay_case(case) and impl_out.startswith("(0 "):
+            k = impl_out.rfind("(")
+            stripped = impl_out[:k].rstrip() + ")"      # without the real file's bytes
+            r = self.replay.get(case, "")
+            if not (r.startswith("(1 ") and stripped.startswith("(0 () ")):
+                return False
+            answers_impl = stripped[len("(0 () "):-1]
+            answers_replay = r[3:].split(" ", 2)[2][:-1]    # reader model on the real = model bytes
+            if answers_impl != answers_replay:
+                return False
+            return case in self.replay_only or stripped == model_out
+        return impl_out == model_out
+
+    def extra_checks(self, ctx):
+        return [("stat", "replay_compressor", dict(self.replay_stats))]
+
     def gen(self, rng, tier):
+        for c, t in self.gen0(rng, tier):
+            cc = parse_sx(c)
+            if cc[1][0] == 1:                    # options.compress: ask for the real bytes
+                cc[6] = cc[6] | 4
+                yield sx(cc), t + ["replay"]
+            else:
+                yield c, t
+        # compression together with AUTOMATIC zoom selection (it looks at compressed sizes): only the replay comparison
+        # applies (file bytes, and the reader model on them); shared generators never produce this combination
+        n = 60 if tier == "quick" else 1500
+        for i in range(n):
+            c, t = bedgen.bed_case(rng, tier, want="roundtrip", compress=0, zoom_mode=rng.choice(["auto", "auto-small", "auto-many"]),
+                                   small_index=(i % 3 == 0))
+            cc = parse_sx(c)
+            cc[1][0] = 1; cc[6] = 4
+            c2 = sx(cc)
+            self.replay_only.add(c2)
+            yield c2, [x for x in t if not x.startswith("compress=") and not x.startswith("bytes=")] + ["compress=1", "bytes=0", "replay", "replay-only"]
+
+    def gen0(self, rng, tier):
         n = 500 if tier == "quick" else 8000
         for i in range(n):
             yield bedgen.bed_case(rng, tier, want="roundtrip", small_index=(i % 4 == 0))
